@@ -95,6 +95,8 @@ def run(rep: Report) -> None:
     rep.rule("R15.5", "Unit.__from_json__: base units resolve by name (every base unit is named); derived units rebuild "
              "through the interning constructor", floor=3)
     rep.rule("R03.7", "Quantity.__init__ (the reader of the stored unit text) keeps magnitude and unit as given (shared with C03)", floor=2)
+    rep.rule("R15.10", "no memoised function on the decoding side reads the name/symbol registries (the unit text of a stored quantity must "
+             "be resolved against the registrations of now, not of the first time it was seen)", floor=1)
     rep.rule("R15.9", "no encoder/decoder is memoised over values whose equality ignores the magnitude type (5 m, 5.0 m, Decimal('5') m)", floor=1)
     rep.rule("R15.8", "the unit text a quantity is stored under resolves back to that unit: every prefix x unit spelling and every name resolves "
              "to itself or to an equal-valued unit (the symbol-table rule of C13, at the serialisation sites)", floor=1000)
@@ -267,6 +269,8 @@ def run(rep: Report) -> None:
     check_quantity_ctor(rep, prog, "R03.7")
     from ..quantity_rules import check_numeric_memo
     check_numeric_memo(rep, prog, resolver, "R15.9")
+    from .c19 import memo_over_registries
+    memo_over_registries(rep, prog, resolver, "R15.10")
     # R15.5
     uf = prog.func("Unit.__from_json__")
     jparam = uf.params()[1]
